@@ -662,6 +662,13 @@ func createConnHandler(
 				return err // io.EOF: the stream is done, RecvMsg returns its status
 			}
 
+			if !sd.ClientStreams {
+				// A single request message: half-close as a generated client does.
+				if err := clientStream.CloseSend(); err != nil {
+					return err
+				}
+			}
+
 			var inErr error
 			var wg sync.WaitGroup
 			if sd.ClientStreams {
@@ -670,6 +677,10 @@ func createConnHandler(
 					for {
 						args := dynamicpb.NewMessage(argsDesc)
 						if inErr = stream.RecvMsg(args); inErr != nil {
+							if inErr == io.EOF {
+								// The client finished sending: half-close the back-end stream.
+								clientStream.CloseSend() //nolint
+							}
 							break
 						}
 
